@@ -11,7 +11,7 @@ Style profile (per shard, or chosen per step when shard["free"] is set):
         2 start_action + run(f) + finish      3 @log_call function
         4 typed ActionType    5 start_task (new tree)
   msg   0 log_message  1 action.log  2 typed MessageType.log
-        3 deprecated Message.log     4 write_traceback
+        3 deprecated Message.log     4 write_traceback     5 Message.new().bind().write(action=)
   exc   index into EXC_MENU
   fin   0 none  1 finish() again after the block  2 finish(exc) again
 """
@@ -97,7 +97,7 @@ def _mk_exc(i, n):
 
 N_EXC = 8
 N_OPEN = 6
-N_MSG = 5
+N_MSG = 6
 N_FIN = 3
 
 
@@ -360,6 +360,16 @@ class Interp(object):
             ref = RefMessage("t:old", {"x": v})
             self._attach(ref)
             Message.log(message_type="t:old", x=v)
+        elif st == 5:
+            # deprecated object API: new / bind / write with an explicit action
+            ref = RefMessage("t:bound", {"x": v, "y": 2})
+            self._attach(ref)
+            m = Message.new(message_type="t:bound", x="to be rebound", y=2).bind(x=v)
+            a = current_action()
+            if a is None:
+                m.write()
+            else:
+                m.write(action=a)
         else:
             self.n += 1
             e = _mk_exc(self.style("exc", N_EXC) if self.shard.get("tb_exc", True) else 0, self.n)
@@ -476,12 +486,14 @@ class Interp(object):
                     ctx.check(entered is action, "__enter__ returned %r", entered)
                     self._body(ref, action, depth)
                     r = self.value()
+                    # success fields accumulate; a later call overrides an earlier one
+                    action.add_success_fields(r="overridden", extra=1)
                     if st == 4:
                         action.add_success_fields(r=r)
-                        self._close_ok(ref, action, {"r": _ser(r)})
+                        self._close_ok(ref, action, {"r": _ser(r), "extra": 1})
                     else:
                         action.add_success_fields(r=r)
-                        self._close_ok(ref, action, {"r": r})
+                        self._close_ok(ref, action, {"r": r, "extra": 1})
             elif st == 1:
                 action = start_action(action_type=ref.type, x=v)
                 self.on_logged(ref)
